@@ -85,6 +85,12 @@ class AnnotationSuite(Suite):
             files = []
             for _ in range(rng.choice([1, 1, 2])):
                 t, _ = gen_fasta(rng, rng.randint(1, 6), share)
+                if rng.random() < 0.2:
+                    # records in the style of MaxQuant's contaminants.fasta: a bare accession as identifier, the UniProt triple (with
+                    # its pipes) only inside the description
+                    for j in range(rng.choice([1, 2])):
+                        t += rng.choice([f">P0076{j} SWISS-PROT:P0076{j}|TRYP{j}_PIG Trypsin - Sus scrofa (Pig).\nIVGGYTCAANSIPYQ\n",
+                                         f">Q32MB{j} TREMBL:Q32MB{j};Q86Y46| KRT7{j}_HUMAN Keratin-7{j}\nMKLLAGGK\n"])
                 files.append(t)
             yield {"texts": files, "contains_decoys": rng.random() < 0.5, "gene_level": rng.random() < 0.5,
                    "use_uniprot": rng.random() < 0.3}
